@@ -36,59 +36,109 @@ theorem repTotal_append {V : Type} (π : V → Int) (r₁ r₂ : List (AMap V)) 
   | nil => simp [repTotal]
   | cons p l ih => simp [repTotal, ih]; omega
 
-/-- a projection `π` is additive for the cell update `cellf` with increment `δ` -/
-def Additive {V : Type} (cellf : Int → Option V → V) (π : V → Int) (δ : Int → Int) : Prop :=
-  ∀ x o, π (cellf x o) = (match o with | some w => π w | none => 0) + δ x
+/-- every cell of a value map satisfies `P` -/
+def AllP {V : Type} (P : V → Prop) (m : AMap V) : Prop := ∀ kv ∈ m, P kv.2
 
-theorem projTotal_upd {V : Type} (cellf : Int → Option V → V) (π : V → Int) (δ : Int → Int)
-    (h : Additive cellf π δ) (m : AMap V) (a : Attr) (x : Int) (b : Attr) :
+/-- a projection `π` is additive for the cell update `cellf` with increment `δ` on cells satisfying the
+well-formedness predicate `P`, which the cell update establishes and preserves -/
+def AdditiveOn {V : Type} (P : V → Prop) (cellf : Int → Option V → V) (π : V → Int) (δ : Int → Int) : Prop :=
+  ∀ x o, (∀ w, o = some w → P w) →
+    P (cellf x o) ∧ π (cellf x o) = (match o with | some w => π w | none => 0) + δ x
+
+/-- unconditional additivity -/
+def Additive {V : Type} (cellf : Int → Option V → V) (π : V → Int) (δ : Int → Int) : Prop :=
+  AdditiveOn (fun _ => True) cellf π δ
+
+theorem allP_nil {V : Type} (P : V → Prop) : AllP P ([] : AMap V) := by intro kv h; cases h
+
+theorem allP_upd {V : Type} (P : V → Prop) (cellf : Int → Option V → V) (π : V → Int) (δ : Int → Int)
+    (h : AdditiveOn P cellf π δ) (m : AMap V) (hm : AllP P m) (a : Attr) (x : Int) :
+    AllP P (m.upd a (cellf x)) := by
+  induction m with
+  | nil =>
+    intro kv hkv
+    simp only [AMap.upd, List.mem_singleton] at hkv
+    subst hkv
+    exact (h x none (by intro w hw; cases hw)).1
+  | cons p m ih =>
+    obtain ⟨k, w⟩ := p
+    have hw : P w := hm (k, w) (List.mem_cons_self ..)
+    have hm' : AllP P m := fun kv hkv => hm kv (List.mem_cons_of_mem _ hkv)
+    unfold AMap.upd
+    by_cases hk : k = a
+    · simp only [hk, if_true]
+      intro kv hkv
+      rcases List.mem_cons.mp hkv with rfl | hkv
+      · exact (h x (some w) (by intro w' hw'; cases hw'; exact hw)).1
+      · exact hm' kv hkv
+    · simp only [hk, if_false]
+      intro kv hkv
+      rcases List.mem_cons.mp hkv with rfl | hkv
+      · exact hw
+      · exact ih hm' kv hkv
+
+theorem projTotal_upd {V : Type} (P : V → Prop) (cellf : Int → Option V → V) (π : V → Int) (δ : Int → Int)
+    (h : AdditiveOn P cellf π δ) (m : AMap V) (hm : AllP P m) (a : Attr) (x : Int) (b : Attr) :
     projTotal π (m.upd a (cellf x)) b = projTotal π m b + (if a = b then δ x else 0) := by
   induction m with
   | nil =>
-    have := h x none
+    have := (h x none (by intro w hw; cases hw)).2
     simp only [AMap.upd, projTotal, List.map, total] at this ⊢
     rw [this]; by_cases hb : a = b <;> simp [hb]
   | cons p m ih =>
     obtain ⟨k, w⟩ := p
+    have hw : P w := hm (k, w) (List.mem_cons_self ..)
+    have hm' : AllP P m := fun kv hkv => hm kv (List.mem_cons_of_mem _ hkv)
     unfold AMap.upd
     by_cases hk : k = a
     · subst hk
-      have := h x (some w)
+      have := (h x (some w) (by intro w' hw'; cases hw'; exact hw)).2
       simp only [if_true, projTotal, List.map, total] at this ⊢
       rw [this]
       by_cases hb : k = b <;> simp [hb] <;> omega
     · simp only [hk, if_false]
+      have ih := ih hm'
       simp only [projTotal, List.map, total] at ih ⊢
       rw [ih]; omega
 
 theorem G.run_cons {V : Type} (cellf : Int → Option V → V) (d : Bool) (g : G V) (x : Step) (l : List Step) :
     G.run cellf d g (x :: l) = G.run cellf d (G.step cellf d g x) l := rfl
 
+theorem G.step_allP {V : Type} (P : V → Prop) (cellf : Int → Option V → V) (π : V → Int) (δ : Int → Int)
+    (h : AdditiveOn P cellf π δ) (d : Bool) (g : G V) (hg : AllP P g.values) (x : Step) :
+    AllP P (G.step cellf d g x).values := by
+  cases x with
+  | measure b v id => exact allP_upd P cellf π δ h g.values hg b v
+  | collect t =>
+    cases d
+    · simpa [G.step] using hg
+    · simpa [G.step] using allP_nil P
+
 /-- delta flavour: reported + pending grows by exactly the measured increments -/
-theorem G.delta_balance {V : Type} (cellf : Int → Option V → V) (π : V → Int) (δ : Int → Int)
-    (h : Additive cellf π δ) (steps : List Step) (g : G V) (a : Attr) :
+theorem G.delta_balance {V : Type} (P : V → Prop) (cellf : Int → Option V → V) (π : V → Int) (δ : Int → Int)
+    (h : AdditiveOn P cellf π δ) (steps : List Step) (g : G V) (hg : AllP P g.values) (a : Attr) :
     repTotal π (G.run cellf true g steps).reports a + projTotal π (G.run cellf true g steps).values a =
       repTotal π g.reports a + projTotal π g.values a + measSum δ steps a := by
   induction steps generalizing g with
   | nil => simp [G.run, measSum]
   | cons x l ih =>
-    rw [G.run_cons, ih]
+    rw [G.run_cons, ih _ (G.step_allP P cellf π δ h true g hg x)]
     cases x with
     | measure b v id =>
-      simp only [G.step, measSum, projTotal_upd cellf π δ h]; omega
+      simp only [G.step, measSum, projTotal_upd P cellf π δ h _ hg]; omega
     | collect t =>
       simp only [G.step, if_true, measSum, repTotal_append, repTotal, projTotal, List.map_nil, total]; omega
 
 /-- cumulative flavour: the state grows by exactly the measured increments; collections do not touch it -/
-theorem G.cum_state {V : Type} (cellf : Int → Option V → V) (π : V → Int) (δ : Int → Int)
-    (h : Additive cellf π δ) (steps : List Step) (g : G V) (a : Attr) :
+theorem G.cum_state {V : Type} (P : V → Prop) (cellf : Int → Option V → V) (π : V → Int) (δ : Int → Int)
+    (h : AdditiveOn P cellf π δ) (steps : List Step) (g : G V) (hg : AllP P g.values) (a : Attr) :
     projTotal π (G.run cellf false g steps).values a = projTotal π g.values a + measSum δ steps a := by
   induction steps generalizing g with
   | nil => simp [G.run, measSum]
   | cons x l ih =>
-    rw [G.run_cons, ih]
+    rw [G.run_cons, ih _ (G.step_allP P cellf π δ h false g hg x)]
     cases x with
-    | measure b v id => simp only [G.step, measSum, projTotal_upd cellf π δ h]; omega
+    | measure b v id => simp only [G.step, measSum, projTotal_upd P cellf π δ h _ hg]; omega
     | collect t => simp [G.step, measSum]
 
 theorem G.run_append {V : Type} (cellf : Int → Option V → V) (d : Bool) (g : G V) (l₁ l₂ : List Step) :
@@ -101,16 +151,16 @@ theorem measSum_append_collect (δ : Int → Int) (steps : List Step) (t : Nat) 
   | nil => simp [measSum]
   | cons x l ih => cases x <;> simp [measSum, ih]
 
-/-- the twin equation on the generic LTS: at every collection, for every attribute set and every additive
-projection, the cumulative report equals the running total of all delta reports -/
-theorem G.twin {V : Type} (cellf : Int → Option V → V) (π : V → Int) (δ : Int → Int)
-    (h : Additive cellf π δ) (steps : List Step) (t : Nat) (a : Attr) :
+/-- the twin equation on the generic LTS: at every collection, for every attribute set and every projection that
+is additive on well-formed cells, the cumulative report equals the running total of all delta reports -/
+theorem G.twin {V : Type} (P : V → Prop) (cellf : Int → Option V → V) (π : V → Int) (δ : Int → Int)
+    (h : AdditiveOn P cellf π δ) (steps : List Step) (t : Nat) (a : Attr) :
     ∃ r, (G.run cellf false {} (steps ++ [.collect t])).reports.getLast? = some r ∧
       projTotal π r a = repTotal π (G.run cellf true {} (steps ++ [.collect t])).reports a := by
   refine ⟨(G.run cellf false {} steps).values, ?_, ?_⟩
   · rw [G.run_append]; simp [G.run, G.step]
-  · have hd := G.delta_balance cellf π δ h (steps ++ [.collect t]) {} a
-    have hc := G.cum_state cellf π δ h steps {} a
+  · have hd := G.delta_balance P cellf π δ h (steps ++ [.collect t]) {} (allP_nil P) a
+    have hc := G.cum_state P cellf π δ h steps {} (allP_nil P) a
     have hp : projTotal π (G.run cellf true {} (steps ++ [.collect t])).values a = 0 := by
       rw [G.run_append]; simp [G.run, G.step, projTotal, total]
     have hm := measSum_append_collect δ steps t a
@@ -166,11 +216,100 @@ theorem hist_refines (tp : Temporality) (bounds : List Int) (noSum : Bool) (step
 /-- additive projections of a histogram cell -/
 theorem hist_count_additive (bounds : List Int) (noSum : Bool) :
     Additive (histCellF bounds noSum) (fun v => (v.count : Int)) (fun _ => 1) := by
-  intro x o; cases o <;> simp [histCellF, histCell]
+  intro x o _; cases o <;> simp [histCellF, histCell]
 
 theorem hist_total_additive (bounds : List Int) (noSum : Bool) :
     Additive (histCellF bounds noSum) (fun v => v.total) (fun x => if noSum then 0 else x) := by
-  intro x o; cases o <;> simp [histCellF, histCell] <;> split <;> simp
+  intro x o _; cases o <;> simp [histCellF, histCell] <;> split <;> simp
+
+/-! ### well-formedness of histogram cells: every `counts` list has `bounds.length + 1` entries -/
+
+/-- invariant of the real histogram functions: every cell's bucket vector has one entry per bucket -/
+def HistWF (h : Hist) : Prop := ∀ kv ∈ h.values, kv.2.counts.length = h.bounds.length + 1
+
+theorem searchIdx_le (bounds : List Int) (x : Int) : searchIdx bounds x ≤ bounds.length :=
+  (List.takeWhile_sublist _).length_le
+
+theorem histCell_counts_length (nb : Nat) (noSum : Bool) (idx : Nat) (x : Int) (o : Option HistVal)
+    (ho : ∀ w, o = some w → w.counts.length = nb) : (histCell nb noSum idx x o).counts.length = nb := by
+  cases o with
+  | none => simp [histCell]
+  | some w => simp [histCell, ho w rfl]
+
+theorem upd_all {V : Type} (P : V → Prop) (m : AMap V) (a : Attr) (f : Option V → V)
+    (hm : ∀ kv ∈ m, P kv.2) (hf : ∀ o, (∀ w, o = some w → P w) → P (f o)) :
+    ∀ kv ∈ m.upd a f, P kv.2 := by
+  induction m with
+  | nil =>
+    intro kv hkv
+    simp only [AMap.upd, List.mem_singleton] at hkv
+    subst hkv
+    exact hf none (by intro w hw; cases hw)
+  | cons p m ih =>
+    obtain ⟨k, w⟩ := p
+    have hw : P w := hm (k, w) (List.mem_cons_self ..)
+    have hm' : ∀ kv ∈ m, P kv.2 := fun kv hkv => hm kv (List.mem_cons_of_mem _ hkv)
+    unfold AMap.upd
+    by_cases hk : k = a
+    · simp only [hk, if_true]
+      intro kv hkv
+      rcases List.mem_cons.mp hkv with rfl | hkv
+      · exact hf (some w) (by intro w' hw'; cases hw'; exact hw)
+      · exact hm' kv hkv
+    · simp only [hk, if_false]
+      intro kv hkv
+      rcases List.mem_cons.mp hkv with rfl | hkv
+      · exact hw
+      · exact ih hm' kv hkv
+
+/-- `Hist.measure` (any cardinality limit) preserves well-formedness and leaves the configuration alone -/
+theorem Hist.wf_measure (h : Hist) (hw : HistWF h) (a : Attr) (x : Int) : HistWF (h.measure a x) := by
+  unfold HistWF Hist.measure
+  exact upd_all (fun (v : HistVal) => v.counts.length = h.bounds.length + 1) h.values _ _ hw
+    (fun o ho => histCell_counts_length _ _ _ _ o ho)
+
+theorem Hist.wf_delta (h : Hist) (t : Nat) : HistWF (h.delta t).1 := by
+  intro kv hkv; cases hkv
+
+theorem Hist.wf_cumulative (h : Hist) (hw : HistWF h) (t : Nat) : HistWF (h.cumulative t).1 := hw
+
+theorem Hist.wf_collect (h : Hist) (hw : HistWF h) (tp : Temporality) (t : Nat) : HistWF (h.collect tp t).1 := by
+  cases tp
+  · exact Hist.wf_delta h t
+  · exact hw
+
+/-- every point of a collection of a well-formed histogram carries a full bucket vector -/
+theorem Hist.wf_points (h : Hist) (hw : HistWF h) (tp : Temporality) (t : Nat) :
+    ∀ p ∈ (h.collect tp t).2, p.val.counts.length = h.bounds.length + 1 := by
+  intro p hp
+  have : p ∈ mkPoints h.values h.start t fun _ v => v := by cases tp <;> exact hp
+  simp only [mkPoints, List.mem_map] at this
+  obtain ⟨kv, hkv, rfl⟩ := this
+  exact hw kv hkv
+
+/-- bucket `i` is an additive projection on well-formed cells: a measurement adds 1 to the bucket chosen by the
+boundary search and 0 to every other bucket -/
+theorem hist_bucket_additive (bounds : List Int) (noSum : Bool) (i : Nat) :
+    AdditiveOn (fun v => v.counts.length = bounds.length + 1) (histCellF bounds noSum)
+      (fun v => ((v.counts[i]?.getD 0 : Nat) : Int)) (fun x => if searchIdx bounds x = i then 1 else 0) := by
+  intro x o ho
+  refine ⟨histCell_counts_length _ _ _ _ o ho, ?_⟩
+  have hs := searchIdx_le bounds x
+  cases o with
+  | none =>
+    simp only [histCellF, histCell, Option.getD_none, List.getElem?_modify, List.getElem?_replicate]
+    by_cases hi : searchIdx bounds x = i
+    · have : i < bounds.length + 1 := by omega
+      simp [hi, this]
+    · by_cases hlt : i < bounds.length + 1 <;> simp [hi, hlt]
+  | some w =>
+    have hw := ho w rfl
+    simp only [histCellF, histCell, Option.getD_some, List.getElem?_modify]
+    by_cases hi : searchIdx bounds x = i
+    · have : i < w.counts.length := by omega
+      simp [hi, List.getElem?_eq_getElem this]
+    · simp only [hi, if_false]
+      cases w.counts[i]? <;> simp
 
 end Otel.C08
 
